@@ -560,9 +560,9 @@ class _CancelScope:
 
 class _FailAfter:
     def __init__(self, delay: typing.Any, exc_type: type[Exception], inf_is_none: bool) -> None:
-        if delay is None or (
-            inf_is_none and type(delay) is float and delay == float("inf")
-        ):
+        # an infinite delay never fires (anyio: deadline = inf; trio: the
+        # adapter passes float("inf") for "no time-out")
+        if delay is None or (type(delay) is float and delay == float("inf")):
             deadline = None
         else:
             deadline = RT.clock + delay
@@ -656,6 +656,9 @@ class _TEvent:
 
     def wait(self, timeout: typing.Any = None) -> bool:
         self.waits.append(timeout)
+        if type(timeout) is float and timeout == float("inf"):
+            # what the real threading.Event does with an infinite timeout
+            raise OverflowError("timestamp too large to convert to C _PyTime_t")
         if self._flag:
             return True
         if timeout is None:
